@@ -1344,6 +1344,13 @@ func c03_runC03(e *Env) {
 		"One VM entered many times (stream `life`): 2–7 entries on one vm.NewEmpty() — risor.Eval / EvalCode with WithVM, vm.RunCode, risor.Call with WithVM, vm.RunCode under Background + vm.Get + vm.Call — each under a context of its own kind " +
 		"(Background / TODO / WithValue; WithCancel / WithTimeout / WithDeadline / WithValue of one, cancelled by the host after the entry; cancelled or expired before the entry, code that runs until halted) " +
 		"with code that returns, fails or overruns the operand stack; per entry value / recovered panic / returned error against the model's `lifeSeq`, a Go panic out of the entry point is a violation. " +
+		"Lookups by name on one VM that runs one code object after another (stream `lookup`): 2–5 generated scripts declaring 1–4 globals (functions / variables, values unique to script and position) under names from a pool of seven, " +
+		"so that a name changes slot or disappears between scripts; compiled with the default globals or none; each loaded by vm.RunCode or risor.EvalCode with WithVM and followed by 1–3 lookups (vm.Get, or risor.Call with WithVM), mostly of names asked for earlier on this VM, " +
+		"also builtins, undeclared names, a lookup before any load; per lookup the real outcome against the model's `getSeq scan` on the real global names and against the Spec (the global of the ACTIVE script), a Go panic out of Get / risor.Call is a violation; " +
+		"non-trivial when some name is looked up under two different active scripts. " +
+		"One file object with two closers (stream `fileclose`): an object.File over an in-memory file whose Close can be held, opened under a cancellable context; 1–5 events out of close / deferclose (a script with the default globals plus the file calls f.close(), directly or as a deferred call), " +
+		"cancel (the opening context ends; the watcher goroutine is held inside the underlying Close, i.e. in its ctx.Done branch), resume (the watcher runs to its end), then cancel, resume; per event against the model's `fileSeq`, a Go panic out of risor.Eval or the death of the child (a panic on the watcher goroutine) is a violation; " +
+		"non-trivial when both closers act. " +
 		"Integer-literal initialisers (stream `constexpr`): expression trees over + - * / % << >> & and negation with operands at the edges of int64 and of the shift range (negative and ≥ 64 counts, zero divisors), " +
 		"in const / var / := / expression statement / const inside a function / return value / list item; whole source pipeline, value or error against the model's `declRun`. " +
 		"A case is distinct by its bytes; a source case is non-trivial when the parser got past the first token (parse ok, or the error position is after the first token); " +
@@ -1354,6 +1361,10 @@ func c03_runC03(e *Env) {
 	nSwitchErr := 600
 	nRec, nImporter, nImportScript := 260, 300, 250
 	nLife, nConstExpr := 300, 1500
+	nLookup, nFileClose := 500, 200
+	if !e.Quick {
+		nLookup, nFileClose = 8000, 2500
+	}
 	if !e.Quick {
 		nRec, nImporter, nImportScript = 4000, 6000, 5000
 		nLife, nConstExpr = 6000, 60000
@@ -1375,6 +1386,8 @@ func c03_runC03(e *Env) {
 	c.importerCases(nImporter)
 	c.importScriptCases(nImportScript)
 	c.lifeCases(nLife)
+	c.lookupCases(nLookup)
+	c.fileCloseCases(nFileClose)
 	c.constExprCases(nConstExpr)
 	c.vmCases()
 	c.deepCases()
@@ -1582,6 +1595,10 @@ func c03Child(args []string) {
 			resp = c03RunImportScript(req.Opt, string(srcB), req.N)
 		case "life":
 			resp = c03RunLife(req.Opt)
+		case "lookup":
+			resp = c03RunLookup(req.Opt)
+		case "fileclose":
+			resp = c03RunFileClose(req.Opt)
 		}
 		resp.ID = req.ID
 		resp.Ms = time.Since(t0).Milliseconds()
